@@ -18,6 +18,10 @@
 //!   HTTP CONNECT header), reads the proxy's replies only then and goes on with the rest; n = 1 .. 70 000, also
 //!   exactly what fills a 512-byte / 8 KiB parse buffer together with the request; the upload shorter than, equal
 //!   to, longer than n.  Same rules: every byte at the target, in order, exactly once.
+//!   Split handshake (`split=<k>[,<k2>..]`): the local client writes its handshake in pieces cut at the given offsets
+//!   (inside the SOCKS4 user id / host name, inside the SOCKS5 greeting / request header / address / port, inside the
+//!   HTTP request line / header / final CRLFCRLF, one byte per write), each piece flushed and followed by a short
+//!   pause so that the proxy reads it alone.  Same rules: the tunnel opens, every byte arrives in order.
 //! * udp: 1-4 local UDP clients x tagged echo targets through the UDP remotes or SOCKS5 UDP
 //!   associations; every reply at exactly the originating socket, from the address it sent to,
 //!   payload unmodified, (SOCKS5) behind a well-formed RFC 1928 header.
@@ -86,6 +90,29 @@ enum Outcome {
     Infra(String),
 }
 
+/// How the local client of a split-handshake scenario delivered its handshake, in words.
+fn split_how(s: &TcpScn) -> String {
+    let cuts = s.split_cuts();
+    let joined = s.hello_joined && s.entry.is_socks5();
+    let n = tcp::handshake_len(s.entry);
+    let what = match s.entry {
+        Entry::Socks4 | Entry::Socks4a => "SOCKS4 request",
+        e if e.is_socks5() && joined => "SOCKS5 greeting and request (sent without waiting for the method selection in between)",
+        e if e.is_socks5() => "SOCKS5 greeting and request (the method selection awaited in between)",
+        _ => "HTTP CONNECT request header",
+    };
+    let places = if cuts.len() > 6 && cuts.len() + 1 >= n - usize::from(s.entry.is_socks5() && !joined) {
+        "one byte per write".to_string()
+    } else {
+        format!("cut {}", cuts.iter().map(|(k, l)| format!("after {k} byte(s) ({l})")).collect::<Vec<_>>().join(", "))
+    };
+    format!(
+        "the local client wrote its {what}, {n} bytes, in {} pieces ({places}), each piece flushed on a TCP_NODELAY socket and followed by a pause of {} ms; a direct connection does not care how its bytes are cut into segments",
+        cuts.len() + 1,
+        tcp::SPLIT_PAUSE_MS
+    )
+}
+
 /// (canonical key, description) per violation
 fn judge(sc: &Scn, out: &Outcome) -> Vec<(String, String)> {
     match (sc, out) {
@@ -93,6 +120,11 @@ fn judge(sc: &Scn, out: &Outcome) -> Vec<(String, String)> {
             let mut bad = vec![];
             for (s, o) in v.iter().zip(obs.iter()) {
                 for (k, d) in check_conn(s, o) {
+                    if s.is_split() {
+                        // the split-handshake family has keys of its own; the rules are the same
+                        bad.push((format!("tcp:{}:split-handshake:{}:{k}", s.entry.text(), s.mode.text()), format!("{d}; {}  [{}]", split_how(s), s.line())));
+                        continue;
+                    }
                     if s.is_early() {
                         // the optimistic-data family has keys of its own; the rules are the same
                         let how = format!(
@@ -249,7 +281,7 @@ fn random_tcp(r: &mut Rng, tier: Tier, entry: Option<Entry>, mode: Option<Mode>)
         _ => {}
     }
     let slow_ms = if r.chance(1, 6) { *r.pick(&[50u64, 300]) } else { 0 };
-    TcpScn { entry, mode, up, down, upc: chunk_for(r, up), downc: chunk_for(r, down), slow_ms, seed: r.next() % 1_000_000_000, rcvbuf: 0, pace_ms: 0, early: 0, hello_joined: false }
+    TcpScn { entry, mode, up, down, upc: chunk_for(r, up), downc: chunk_for(r, down), slow_ms, seed: r.next() % 1_000_000_000, rcvbuf: 0, pace_ms: 0, early: 0, hello_joined: false, split: vec![] }
 }
 
 /// A dialogue after a half-close: the first payload is any size; the direction that stays open carries
@@ -269,9 +301,9 @@ fn random_hold(r: &mut Rng, tier: Tier, entry: Entry, mode: Mode) -> TcpScn {
     let slow_ms = *r.pick(&[0u64, 0, 0, 20, 120]);
     let seed = r.next() % 1_000_000_000;
     if mode == Mode::ClientFirstHold {
-        TcpScn { entry, mode, up: first, down: held, upc: firstc, downc: heldc, slow_ms, seed, rcvbuf: 0, pace_ms: 0, early: 0, hello_joined: false }
+        TcpScn { entry, mode, up: first, down: held, upc: firstc, downc: heldc, slow_ms, seed, rcvbuf: 0, pace_ms: 0, early: 0, hello_joined: false, split: vec![] }
     } else {
-        TcpScn { entry, mode, up: held, down: first, upc: heldc, downc: firstc, slow_ms, seed, rcvbuf: 0, pace_ms: 0, early: 0, hello_joined: false }
+        TcpScn { entry, mode, up: held, down: first, upc: heldc, downc: firstc, slow_ms, seed, rcvbuf: 0, pace_ms: 0, early: 0, hello_joined: false, split: vec![] }
     }
 }
 
@@ -288,9 +320,9 @@ fn half_close_pass(r: &mut Rng, tier: Tier) -> Vec<Scn> {
             let firstc = chunk_for(r, first);
             let seed = r.next() % 1_000_000_000;
             all.push(if mode == Mode::ClientFirstHold {
-                TcpScn { entry: *e, mode, up: first, down: held, upc: firstc, downc: heldc, slow_ms, seed, rcvbuf: 0, pace_ms: 0, early: 0, hello_joined: false }
+                TcpScn { entry: *e, mode, up: first, down: held, upc: firstc, downc: heldc, slow_ms, seed, rcvbuf: 0, pace_ms: 0, early: 0, hello_joined: false, split: vec![] }
             } else {
-                TcpScn { entry: *e, mode, up: held, down: first, upc: heldc, downc: firstc, slow_ms, seed, rcvbuf: 0, pace_ms: 0, early: 0, hello_joined: false }
+                TcpScn { entry: *e, mode, up: held, down: first, upc: heldc, downc: firstc, slow_ms, seed, rcvbuf: 0, pace_ms: 0, early: 0, hello_joined: false, split: vec![] }
             });
         };
         // (a) one short answer after the client's half-close
@@ -339,9 +371,9 @@ fn late_pass(r: &mut Rng, tier: Tier) -> Vec<Scn> {
         };
         let seed = r.next() % 1_000_000_000;
         all.push(if mode == Mode::LateTarget {
-            TcpScn { entry, mode, up: bulk, down: short, upc: bulkc, downc: Chunk::Whole, slow_ms, seed, rcvbuf, pace_ms, early: 0, hello_joined: false }
+            TcpScn { entry, mode, up: bulk, down: short, upc: bulkc, downc: Chunk::Whole, slow_ms, seed, rcvbuf, pace_ms, early: 0, hello_joined: false, split: vec![] }
         } else {
-            TcpScn { entry, mode, up: short, down: bulk, upc: Chunk::Whole, downc: bulkc, slow_ms, seed, rcvbuf, pace_ms, early: 0, hello_joined: false }
+            TcpScn { entry, mode, up: short, down: bulk, upc: Chunk::Whole, downc: bulkc, slow_ms, seed, rcvbuf, pace_ms, early: 0, hello_joined: false, split: vec![] }
         });
     };
     let start = r.below(ENTRIES.len() as u64) as usize;
@@ -411,7 +443,7 @@ fn early_pass(r: &mut Rng, tier: Tier) -> Vec<Scn> {
         let upc = chunk_for(r, rest);
         let downc = chunk_for(r, down);
         let seed = r.next() % 1_000_000_000;
-        TcpScn { entry, mode, up, down, upc, downc, slow_ms, seed, rcvbuf: 0, pace_ms: 0, early, hello_joined: joined && entry.is_socks5() }
+        TcpScn { entry, mode, up, down, upc, downc, slow_ms, seed, rcvbuf: 0, pace_ms: 0, early, hello_joined: joined && entry.is_socks5(), split: vec![] }
     };
     let longer = [1usize, 513, 8193, 65_536];
     match tier {
@@ -501,11 +533,148 @@ fn early_pass(r: &mut Rng, tier: Tier) -> Vec<Scn> {
     all.chunks(SLOTS).map(|c| Scn::Tcp(c.to_vec())).collect()
 }
 
+/// The entry point kinds of the split-handshake family: every kind whose handshake the local client speaks.  On the
+/// unchanged code each of them opens the tunnel for a request that arrives in pieces exactly as for one that arrives
+/// whole, wherever it is cut (established by running every single cut position and byte-by-byte delivery of every
+/// kind): the SOCKS listener reads its fixed-length fields with `read_exact` / `read_u8` / `read_u16` / `read_u32`
+/// and the NUL-terminated SOCKS4 fields with `read_until` through one `BufReader`, all of which keep reading until
+/// the field is complete; hyper keeps reading until it has a complete header.  So the family is judged by the
+/// ordinary rules of `check_conn`.
+const SPLIT_ENTRIES: [Entry; 8] = EARLY_ENTRIES;
+
+/// Split handshake: a local client whose handshake reaches the proxy in pieces (a client that assembles its request
+/// with several writes on a `TCP_NODELAY` socket, or a link that re-segments).  The client writes the first piece,
+/// flushes, pauses `SPLIT_PAUSE_MS` so that the proxy's read returns with that piece alone, writes the next, and so
+/// on (`split=<k>[,<k2>..]`: the offsets of the cuts in the concatenation of the client's handshake messages);
+/// where the protocol makes the client wait for an answer (SOCKS5 method selection) it waits.  Then the scenario goes
+/// on like any other: a small upload / download in one of the close orders.  A direct connection does not care how
+/// its bytes are cut into segments; so the tunnel must come up and carry the payload for every cut.
+/// thorough: every single cut position of every entry point kind (SOCKS4: fixed fields, inside the user id, before
+/// its NUL; SOCKS4a: also at and inside the host name and before the final NUL; SOCKS5 to an IPv4 / IPv6 / domain
+/// target: inside the greeting, after 1, 2, 3 bytes of the request, inside the address, inside the port, and the same
+/// with greeting and request sent without waiting for the method selection, which adds the cut between the two; HTTP
+/// CONNECT to an IPv4 / IPv6 / domain target: inside the request line, inside the header, inside the final
+/// CRLFCRLF), byte-by-byte delivery of each, and some with two to four cuts by the dice.  quick: a selection that
+/// rotates with the seed, see below.
+fn split_pass(r: &mut Rng, tier: Tier) -> Vec<Scn> {
+    // the table of fields must describe the messages that are really sent
+    for e in SPLIT_ENTRIES {
+        let sent: Vec<usize> = tcp::handshake_msgs(e, [127, 0, 0, 1], 40_000).iter().map(Vec::len).collect();
+        let described: Vec<usize> = tcp::handshake_fields(e, 40_000).iter().map(|m| m.iter().map(|(_, n)| n).sum()).collect();
+        assert_eq!(sent, described, "e2e: handshake_fields out of step with handshake_msgs for {}", e.text());
+    }
+    let modes = [Mode::Echo, Mode::ClientFirst, Mode::TargetFirst, Mode::Duplex, Mode::TargetCloses, Mode::ClientFirstHold];
+    let mut n = r.below(modes.len() as u64) as usize;
+    let mut mk = |r: &mut Rng, entry: Entry, split: Vec<usize>, joined: bool| {
+        let mode = modes[n % modes.len()];
+        n += 1;
+        let up = *r.pick(&[1usize, 100, 513, 3000]);
+        let (down, downc) = match mode {
+            Mode::Echo => (0, Chunk::Whole),
+            Mode::ClientFirstHold => (*r.pick(&[1usize, 100, 3000]), Chunk::Whole),
+            _ => {
+                let d = *r.pick(&[1usize, 100, 513, 3000]);
+                (d, chunk_for(r, d))
+            }
+        };
+        let upc = chunk_for(r, up);
+        let seed = r.next() % 1_000_000_000;
+        TcpScn { entry, mode, up, down, upc, downc, slow_ms: 0, seed, rcvbuf: 0, pace_ms: 0, early: 0, hello_joined: joined && entry.is_socks5(), split }
+    };
+    // every offset at which the handshake of `e` can be cut, with where it falls; those whose label satisfies `f`
+    let at = |e: Entry, joined: bool, f: &dyn Fn(&str) -> bool| -> Vec<usize> {
+        tcp::cut_positions(e, joined).into_iter().filter(|(_, l)| f(l)).map(|(k, _)| k).collect()
+    };
+    let every = |e: Entry, joined: bool| -> Vec<usize> { at(e, joined, &|_| true) };
+    // single cuts first, the slow ones (one byte per write) at the end and next to each other, so that they overlap
+    let mut all: Vec<TcpScn> = vec![];
+    let mut slow: Vec<TcpScn> = vec![];
+    match tier {
+        Tier::Quick => {
+            let rot = r.below(1000) as usize;
+            // the `j`-th (rotating with the seed) of the offsets whose label satisfies `f`
+            let one = |e: Entry, j: usize, f: &dyn Fn(&str) -> bool| -> usize {
+                let v = at(e, false, f);
+                v[(rot + j) % v.len()]
+            };
+            for (i, e) in SPLIT_ENTRIES.iter().copied().enumerate() {
+                let mut cuts: Vec<usize> = vec![];
+                match e {
+                    Entry::Socks4 | Entry::Socks4a => {
+                        // always: inside the user id; SOCKS4a: inside the host name; then the cut before a NUL, or
+                        // the one at the beginning of the host name, and one in the fixed part
+                        cuts.push(one(e, i, &|l| l == "inside-userid"));
+                        if e == Entry::Socks4a {
+                            cuts.push(one(e, i, &|l| l == "inside-hostname"));
+                        }
+                        cuts.push(one(e, i, &|l| l.ends_with("-nul") || l.ends_with("|hostname")));
+                        cuts.push(one(e, i, &|l| !l.contains("userid") && !l.contains("hostname")));
+                    }
+                    e if e.is_socks5() => {
+                        // always: after 1, 2 and 3 bytes of the request; one inside the greeting, one inside the
+                        // address or the port
+                        let req = 3usize;
+                        cuts.extend([req + 1, req + 2, req + 3]);
+                        cuts.push(one(e, i, &|l| l.contains("greeting")));
+                        cuts.push(one(e, i, &|l| l.contains("addr") || l.contains("port") || l.contains("domain-len")));
+                    }
+                    _ => {
+                        // always: inside the final CRLFCRLF; one inside the request line, one inside the header
+                        cuts.push(one(e, i, &|l| l == "inside-crlfcrlf"));
+                        cuts.push(one(e, i, &|l| ["method", "sp", "target", "version"].iter().any(|f| l.contains(f)) && !l.contains("crlf")));
+                        cuts.push(one(e, i, &|l| l.contains("header") && !l.contains("crlfcrlf")));
+                    }
+                }
+                cuts.sort_unstable();
+                cuts.dedup();
+                for k in cuts {
+                    all.push(mk(r, e, vec![k], false));
+                }
+            }
+            // per protocol: one request with two cuts, one byte by byte (the target kind of SOCKS5 / HTTP by the seed);
+            // SOCKS5 without waiting for the method selection: one cut between greeting and request
+            let s5 = [Entry::Socks5V4, Entry::Socks5V6, Entry::Socks5Dom][rot % 3];
+            let http = [Entry::HttpV4, Entry::HttpV6, Entry::HttpDom][(rot / 3) % 3];
+            all.push(mk(r, Entry::Socks4, vec![one(Entry::Socks4, 1, &|l| l == "inside-userid"), tcp::handshake_len(Entry::Socks4) - 1], false));
+            all.push(mk(r, Entry::Socks4a, vec![one(Entry::Socks4a, 2, &|l| l == "inside-userid"), one(Entry::Socks4a, 2, &|l| l == "inside-hostname")], false));
+            all.push(mk(r, s5, vec![one(s5, 0, &|l| l.contains("greeting")), one(s5, 0, &|l| l == "inside-addr")], false));
+            all.push(mk(r, s5, vec![3], true));
+            all.push(mk(r, http, vec![one(http, 0, &|l| l == "inside-target"), one(http, 1, &|l| l == "inside-crlfcrlf")], false));
+            for e in [Entry::Socks4, Entry::Socks4a, s5, http] {
+                slow.push(mk(r, e, every(e, false), false));
+            }
+        }
+        Tier::Thorough => {
+            for e in SPLIT_ENTRIES {
+                let variants: &[bool] = if e.is_socks5() { &[false, true] } else { &[false] };
+                for joined in variants {
+                    for k in every(e, *joined) {
+                        all.push(mk(r, e, vec![k], *joined));
+                    }
+                    slow.push(mk(r, e, every(e, *joined), *joined));
+                }
+                // two to four cuts by the dice
+                for _ in 0..10 {
+                    let joined = e.is_socks5() && r.chance(1, 3);
+                    let pos = every(e, joined);
+                    let want = r.range(2, 4) as usize;
+                    let mut cuts: Vec<usize> = (0..want).map(|_| *r.pick(&pos)).collect();
+                    cuts.sort_unstable();
+                    cuts.dedup();
+                    all.push(mk(r, e, cuts, joined));
+                }
+            }
+        }
+    }
+    all.extend(slow);
+    all.chunks(SLOTS).map(|c| Scn::Tcp(c.to_vec())).collect()
+}
+
 /// Several windows (512 frames) of data against a reader that starts late: 5 MiB in 8 KiB frames.
 fn windows_scn(r: &mut Rng, entry: Entry, upward: bool) -> TcpScn {
     let big = 5 * (1 << 20) + 3;
     let (up, down, mode) = if upward { (big, 10, Mode::ClientFirst) } else { (10, big, Mode::TargetFirst) };
-    TcpScn { entry, mode, up, down, upc: Chunk::Fixed(65536), downc: Chunk::Fixed(65536), slow_ms: 400, seed: r.next() % 1_000_000_000, rcvbuf: 0, pace_ms: 0, early: 0, hello_joined: false }
+    TcpScn { entry, mode, up, down, upc: Chunk::Fixed(65536), downc: Chunk::Fixed(65536), slow_ms: 400, seed: r.next() % 1_000_000_000, rcvbuf: 0, pace_ms: 0, early: 0, hello_joined: false, split: vec![] }
 }
 
 fn random_udp(r: &mut Rng, socks: bool) -> UdpScn {
@@ -768,6 +937,8 @@ fn fixed_pass(r: &mut Rng, tier: Tier) -> Vec<Scn> {
     v.extend(late_pass(&mut r.fork(4), tier));
     // optimistic data: payload in the same write as the last handshake message (a sub-stream of its own)
     v.extend(early_pass(&mut r.fork(6), tier));
+    // split handshake: the client's handshake arrives in pieces (a sub-stream of its own)
+    v.extend(split_pass(&mut r.fork(7), tier));
     v
 }
 
@@ -885,7 +1056,7 @@ fn main() {
     if let Some(p) = &args.replay {
         std::process::exit(replay(p));
     }
-    let rule = "scenario = 1-4 concurrent local TCP connections (entry point kind, close order incl. dialogues after a half-close and peers that half-close at once and read late, payload sizes, chunkings, local clients that send the beginning of their upload together with their SOCKS / HTTP CONNECT request before reading the reply) or one UDP \
+    let rule = "scenario = 1-4 concurrent local TCP connections (entry point kind, close order incl. dialogues after a half-close and peers that half-close at once and read late, payload sizes, chunkings, local clients that send the beginning of their upload together with their SOCKS / HTTP CONNECT request before reading the reply, local clients whose SOCKS / HTTP CONNECT handshake reaches the proxy in pieces cut inside and between its fields) or one UDP \
 scenario (1-4 local UDP clients x tagged echo targets x payload sizes, via UDP remotes or SOCKS5 UDP associations; also after an idle \
 time, one-way streams longer than two idle timeouts that the target answers only at the end, and exchanges after a malformed \
 datagram on the relay socket of a SOCKS5 association, and long flows: up to 1100 exchanges on the same sockets, more than \
@@ -1057,6 +1228,8 @@ was propagated; distinct by scenario text";
     let (mut late_conns, mut late_bytes, mut late_clean, mut late_max_ms) = (0usize, 0usize, 0usize, 0u64);
     // optimistic data: connections, bytes sent with the handshake, connections whose target read the whole upload
     let (mut early_conns, mut early_sent, mut early_whole) = (0usize, 0usize, 0usize);
+    // split handshake: connections, cuts, connections on which the tunnel was opened, slowest connection
+    let (mut split_conns, mut split_cuts, mut split_open, mut split_max_ms) = (0usize, 0usize, 0usize, 0u64);
     for (i, sc) in scs.iter().enumerate() {
         let (mut out, mt) = outcomes[i].take().expect("outcome");
         if let Outcome::Infra(e) = &out {
@@ -1152,6 +1325,12 @@ was propagated; distinct by scenario text";
                     early_sent += s.early_bytes();
                     early_whole += usize::from(s.early_bytes() > 0 && c.target.as_ref().is_some_and(|t| t.received.len() == s.up));
                 }
+                for (s, c) in v.iter().zip(obs.iter()).filter(|(s, _)| s.is_split()) {
+                    split_conns += 1;
+                    split_cuts += s.split_cuts().len();
+                    split_open += usize::from(c.handshake_fail.is_none() && c.client.infra.is_none() && c.target_connected);
+                    split_max_ms = split_max_ms.max(c.ms);
+                }
                 for (s, c) in v.iter().zip(obs.iter()).filter(|(s, _)| s.mode.is_late()) {
                     let (late, bulk) = if s.mode == Mode::LateTarget { (c.target.as_ref(), s.up) } else { (Some(&c.client), s.down) };
                     late_conns += 1;
@@ -1196,6 +1375,26 @@ was propagated; distinct by scenario text";
                         rep.count(&format!("{fam}/whole-upload/{}", match s.up.cmp(&s.early) { std::cmp::Ordering::Less => "shorter-than-early", std::cmp::Ordering::Equal => "equal-to-early", std::cmp::Ordering::Greater => "longer-than-early" }));
                         if s.entry.is_socks5() {
                             rep.count(&format!("{fam}/socks5/{}", if s.hello_joined { "greeting+request+payload-in-one-write" } else { "greeting-alone-then-request+payload" }));
+                        }
+                    }
+                    if s.is_split() {
+                        let fam = "tcp/split-handshake";
+                        let cuts = s.split_cuts();
+                        let joined = s.hello_joined && s.entry.is_socks5();
+                        let bytewise = cuts.len() > 4 && cuts.len() == tcp::cut_positions(s.entry, joined).len();
+                        rep.count(fam);
+                        rep.count(&format!("{fam}/entry/{}", s.entry.text()));
+                        rep.count(&format!("{fam}/mode/{}", s.mode.text()));
+                        rep.count(&format!("{fam}/pieces/{}", if bytewise { "one-byte-per-write".to_string() } else { (cuts.len() + 1).to_string() }));
+                        if bytewise {
+                            rep.count(&format!("{fam}/cut/{}/every-byte", s.entry.text()));
+                        } else {
+                            for (_, l) in &cuts {
+                                rep.count(&format!("{fam}/cut/{}/{l}", s.entry.text()));
+                            }
+                        }
+                        if s.entry.is_socks5() {
+                            rep.count(&format!("{fam}/socks5/{}", if joined { "greeting-and-request-without-waiting-for-the-method-selection" } else { "method-selection-awaited-between-greeting-and-request" }));
                         }
                     }
                     if s.mode.is_hold() {
@@ -1282,6 +1481,10 @@ was propagated; distinct by scenario text";
     ));
     rep.notes.push(format!(
         "optimistic data: {early_conns} connection(s) whose local client wrote the beginning of its upload ({early_sent} bytes in all) in the same write as the last message of its SOCKS4 / SOCKS4a / SOCKS5 / HTTP CONNECT handshake and read the proxy's reply only afterwards (SOCKS5: greeting alone first, or greeting + request + payload in one write); judged by the ordinary rules (every byte at the target, in order, exactly once); in {early_whole} of them the target read the complete upload (the others: modes in which the client sends nothing, or failures)"
+    ));
+    rep.notes.push(format!(
+        "split handshake: {split_conns} connection(s) whose local client wrote its SOCKS4 / SOCKS4a / SOCKS5 / HTTP CONNECT handshake in pieces ({split_cuts} cuts in all: inside and between the fields, see the distribution under tcp/split-handshake/cut; some one byte per write), every piece flushed on a TCP_NODELAY socket and followed by a pause of {} ms so that the proxy reads it alone; judged by the ordinary rules (the tunnel to a listening target must open, then every byte in order); on {split_open} of them the tunnel opened and the target was reached; slowest connection {split_max_ms} ms",
+        tcp::SPLIT_PAUSE_MS
     ));
     rep.notes.push(format!(
         "SOCKS5 UDP reply headers (all well-formed, payload recovered): DST.ADDR/DST.PORT named the remote host in {hdr_remote}, the local client's own address in {hdr_client}, something else in {hdr_other} replies"
